@@ -90,8 +90,9 @@ def role_mapping(facts):
     for canon, pred in ROLES:
         cands = []
         for s in sigs:
-            want_kind = "AssocFn" if "::<" in canon.rsplit("::", 1)[0] else "Fn"
-            if kinds.get(s["path"]) != want_kind:
+            # a private free function may be turned into an associated function without a receiver (and back): same role
+            want_kinds = ("AssocFn",) if "::<" in canon.rsplit("::", 1)[0] else ("Fn", "AssocFn")
+            if kinds.get(s["path"]) not in want_kinds:
                 continue
             try:
                 if pred(s):
@@ -180,6 +181,8 @@ def normalise(facts):
     for b in out.get("bodies", []):
         if b["path"] in mapping.values() and b.get("kind") in ("Fn", "AssocFn"):
             b["name"] = b["path"].rsplit("::", 1)[-1]
+            if "::<" not in b["path"].rsplit("::", 1)[0]:
+                b["kind"] = "Fn"
     for lst in ("bodies",):
         for b in out.get(lst, []):
             for blk in b.get("blocks", []):
